@@ -32,6 +32,13 @@ func config(name string) pmc.Cfg {
 		base.Name, base.MaxView = name, c.MaxView
 		base.Eager = strings.HasSuffix(name, "e") // "K2@v0e": eager adversary (no lazy-delivery reduction)
 		base.Sloppy = strings.HasSuffix(name, "s") // "K1@v1s": consumer validators accept a missing block
+		if strings.HasSuffix(name, "z") { // "K1@v1z": every correct consumer rejects block Z (external validity, C04)
+			base.Alphabet = []string{"Z", "A"}
+			base.Invalid = map[int]map[string]bool{}
+			for i := range base.C {
+				base.Invalid[i] = map[string]bool{"Z": true}
+			}
+		}
 		return base
 	}
 	switch name {
@@ -85,6 +92,7 @@ var menus = map[string]string{
 	"M7":   "PC OUT",
 	"MALL": "PC PP0 VC NV NVF NVW NVH XT OUT",
 	"MN":   "PC NVN PP0",
+	"MZ":   "PC PP0 NV NVM VC",
 	"M5":   "PC PPV", // only used to (re)generate the witness of the recorded stand-alone-PREPREPARE finding
 }
 
@@ -96,6 +104,17 @@ func plan(prop, tier string) []run {
 	}
 	if prop == "C13" || prop == "C17" {
 		return nil // only the two-height enumeration below serves these two properties in this engine
+	}
+	if prop == "C04" {
+		// external validity: block Z is rejected by every correct consumer; Byzantine leaders propose it in
+		// view 0, in NEW_VIEW without proofs, and in NEW_VIEW locked on a proof whose PREPREPARE part they re-signed
+		bud := 15 * time.Second
+		if !q {
+			bud = 90 * time.Second
+		}
+		for _, c := range []string{"K2@v0z", "K1@v1z", "K3b@v1z"} {
+			r = append(r, run{cfg: c, menu: "MZ", prims: menus["MZ"], budget: bud, maxV: 1})
+		}
 	}
 	if prop == "C12" {
 		// protocol-level robustness: a consumer whose validator accepts a missing block; proposals without
